@@ -44,7 +44,7 @@ inline void putSpec(CaseText &t, const pw::FileSpec &fs) {
       std::string ps; for (auto &pg : cs.pages) ps += std::to_string(pg.end) + ":" + std::to_string(pg.encoding) + ":" + std::to_string(pg.version) + ",";
       t.put(p + "pages", ps);
       std::vector<long long> fl = {cs.dict, cs.dict_page_encoding, cs.dict_offset_present, cs.dict_extra_entries, cs.index_width_extra, cs.codec, cs.crc, cs.level_style, (long long)cs.seed, cs.page_stats, cs.chunk_stats,
-                                   cs.stats_mode, cs.def_level_encoding, cs.codec_tag_override, cs.extra_header_fields, cs.codec_flavour};
+                                   cs.stats_mode, cs.def_level_encoding, cs.codec_tag_override, cs.extra_header_fields, cs.codec_flavour, cs.index_width_per_page};
       t.put_ints(p + "flags", fl);
     }
 }
@@ -70,7 +70,7 @@ inline pw::FileSpec getSpec(const CaseText &t) {
       for (auto &pgs : splitc(t.get(p + "pages"), ',')) { if (pgs.empty()) continue; auto f = splitc(pgs, ':'); pw::PageSpec pg; pg.end = (size_t)std::stoull(f.at(0)); pg.encoding = std::stoi(f.at(1)); pg.version = std::stoi(f.at(2)); cs.pages.push_back(pg); }
       auto fl = t.get_ints<long long>(p + "flags");
       cs.dict = fl.at(0); cs.dict_page_encoding = (int)fl.at(1); cs.dict_offset_present = fl.at(2); cs.dict_extra_entries = (int)fl.at(3); cs.index_width_extra = (int)fl.at(4); cs.codec = (int)fl.at(5); cs.crc = fl.at(6);
-      cs.level_style = (int)fl.at(7); cs.seed = (uint32_t)fl.at(8); cs.page_stats = fl.at(9); cs.chunk_stats = fl.at(10); cs.stats_mode = (int)fl.at(11); cs.def_level_encoding = (int)fl.at(12); cs.codec_tag_override = (int)fl.at(13); cs.extra_header_fields = (int)fl.at(14); cs.codec_flavour = fl.size() > 15 ? (int)fl.at(15) : 0;
+      cs.level_style = (int)fl.at(7); cs.seed = (uint32_t)fl.at(8); cs.page_stats = fl.at(9); cs.chunk_stats = fl.at(10); cs.stats_mode = (int)fl.at(11); cs.def_level_encoding = (int)fl.at(12); cs.codec_tag_override = (int)fl.at(13); cs.extra_header_fields = (int)fl.at(14); cs.codec_flavour = fl.size() > 15 ? (int)fl.at(15) : 0; cs.index_width_per_page = fl.size() > 16 ? (int)fl.at(16) : 0;
       fs.row_groups[g].push_back(cs);
     }
   return fs;
@@ -196,7 +196,7 @@ inline pw::ChunkSpec genChunk(const Opts &o, const pw::Leaf &lf, size_t rows, in
   size_t fw = lf.type == pq::INT32 || lf.type == pq::FLOAT ? 4 : lf.type == pq::INT64 || lf.type == pq::DOUBLE ? 8 : lf.type == pq::INT96 ? 12 : 0;
   bool periodic = o.long_period && rows >= 9000 && fw != 0;
   if (periodic) {
-    size_t period = (size_t)*irange(33000, 65000) / fw;   // bytes between repetitions: beyond a 32 KiB window, inside a 64 KiB one
+    size_t period = (size_t)*rc::gen::weightedOneOf<int>({{3, irange(33000, 65000)}, {1, rc::gen::element(32768, 65532, 65536, 65536)}}) / fw;   // bytes between repetitions: beyond a 32 KiB window, inside a 64 KiB one
     std::vector<Bytes> base; uint64_t sd = (uint64_t)*irange(1, 1 << 30) * 0x9E3779B97F4A7C15ull | 1;
     for (size_t i = 0; i < period; i++) { Bytes v(fw); for (auto &x : v) x = (uint8_t)(dxs2(sd) >> 24); base.push_back(v); }
     for (size_t i = 0; i < nn; i++) cs.values.push_back(base[i % period]);
@@ -220,6 +220,7 @@ inline pw::ChunkSpec genChunk(const Opts &o, const pw::Leaf &lf, size_t rows, in
   cs.dict_page_encoding = *rc::gen::element<int>(pq::PLAIN, pq::PLAIN_DICTIONARY);
   cs.codec = codec;
   cs.codec_flavour = *rc::gen::element(0, 0, 1);   // ZSTD: 1 = frame without content size (streaming writers)
+  cs.index_width_per_page = *rc::gen::element(0, 1);   // 1: each data page uses the index width its own largest index needs (a writer flushing pages while the dictionary grows)
   cs.crc = o.crc && *irange(0, 1);
   cs.seed = (uint32_t)*irange(1, 1 << 30);
   if (o.layouts) {
